@@ -181,6 +181,7 @@ class SubtomogramLoader(LoaderBase):
         """
         if binsize == 1:
             return self.copy()
+        binsize = int(binsize)  # NOTE: -(np.uint8(2) - 1) is 255
         tr = -(binsize - 1) / 2 * self.scale
         molecules = self.molecules.translate([tr, tr, tr])
         binned_image = _utils.bin_image(self.image, binsize=binsize)
